@@ -6,7 +6,7 @@ from __future__ import annotations
 import ast
 from typing import Any
 
-from .bitabs import (fresh, ABits, ACond, AEnum, AFn, AInt, AObj, AOpq, ATable, AView, Abort, F, OB, ONE, ZERO, PathRaise,
+from .bitabs import (ASumVec, PartialRaise, _Raises, fresh, AFin, fin_lift, fin_atoms, mkfin, MAX_FIN_ATOMS, ABits, ACond, AEnum, AFn, AInt, AObj, AOpq, ATable, AView, Abort, F, OB, ONE, ZERO, PathRaise,
                      cbit, _freeze)
 from .model import (BitArr, ClassInfo, ClassRef, EnumMember, FuncInfo, FuncRef, ModRef, NPArr, Rec, Unfoldable, SAFE)
 
@@ -14,7 +14,24 @@ from .model import (BitArr, ClassInfo, ClassRef, EnumMember, FuncInfo, FuncRef, 
 
 
 def is_abs(v):
-    return isinstance(v, (ABits, AInt, AEnum, AObj, ATable, AView, ACond, AOpq, AFn))
+    return isinstance(v, (ABits, AInt, AEnum, AObj, ATable, AView, ACond, AOpq, AFn, AFin, ASumVec)) or \
+        (isinstance(v, tuple) and any(is_abs(x) for x in v))
+
+
+TOO_WIDE = object()
+
+
+def try_lift(fn, *args):
+    """pointwise evaluation in the finite-function domain, or None if the arguments are too wide / not finite"""
+    acc = set()
+    try:
+        for a in args:
+            fin_atoms(a, acc)
+    except Abort:
+        return TOO_WIDE
+    if len(acc) > MAX_FIN_ATOMS:
+        return TOO_WIDE
+    return fin_lift(fn, *args)
 
 
 def const_of(fr, v):
@@ -59,10 +76,57 @@ def _norm(fr, a):
 # ------------------------------------------------------------------------------------------------ operators
 
 
+def matvec(fr, l, r):
+    """0/1 constant matrix times bit vector (either order) as integer sums of forms"""
+    def bits(v):
+        return fr.to_bitlist(v) if isinstance(v, (ABits, AView)) else None
+    if isinstance(l, NPArr) and l.ndim == 2 and bits(r) is not None:
+        v = bits(r)
+        if len(v) != l.shape[1]:
+            raise PathRaise("ValueError", f"shapes ({l.shape[0]},{l.shape[1]}) and ({len(v)},) not aligned")
+        rows = l.data
+    elif isinstance(r, NPArr) and r.ndim == 2 and bits(l) is not None:
+        v = bits(l)
+        if len(v) != r.shape[0]:
+            raise PathRaise("ValueError", f"shapes ({len(v)},) and ({r.shape[0]},{r.shape[1]}) not aligned")
+        rows = [list(c) for c in zip(*r.data)]
+    else:
+        return None
+    out = []
+    for row in rows:
+        terms = []
+        for coef, b in zip(row, v):
+            if coef == 0:
+                continue
+            if coef != 1:
+                return None
+            terms.append(b)
+        out.append(terms)
+    return ASumVec(out)
+
+
 def binop(fr, op, l, r, node):
     I = fr.I
     if isinstance(l, AOpq) or isinstance(r, AOpq):
         return I.opaque("binop with opaque")
+    if isinstance(op, ast.MatMult):
+        v = matvec(fr, l, r)
+        if v is not None:
+            return v
+        return I.opaque("matrix product")
+    if isinstance(l, ASumVec):
+        if isinstance(op, ast.Mod) and const_of(fr, r) == 2:
+            return l.mod2()
+        return I.opaque("arithmetic on integer sums")
+    if isinstance(l, AFin) or isinstance(r, AFin):
+        from .model import BIN
+        l, r = I.simp_fin(l), I.simp_fin(r)
+        if not is_abs(l) and not is_abs(r):
+            return BIN[type(op)](l, r)
+        v = try_lift(BIN[type(op)], l, r)
+        if v is TOO_WIDE:
+            raise Abort("finite-function arithmetic too wide")
+        return v
     # sequence concatenation / repetition
     if isinstance(op, ast.Add):
         if isinstance(l, ABits) or isinstance(r, ABits):
@@ -191,7 +255,8 @@ def int_binop(fr, op, l, r, node):
             elif isinstance(b, F) and b.is_const and b.c == 0:
                 out.append(a)
             else:
-                return fn_int(fr, "add", [A, B], w + 1)
+                v = try_lift(lambda x, y: x + y, A, B)
+                return v if v is not TOO_WIDE else fn_int(fr, "add", [A, B], w + 1)
         return AInt(out)
     if isinstance(op, ast.Sub) and rc == 0:
         return A
@@ -207,6 +272,10 @@ def int_binop(fr, op, l, r, node):
         return AInt([A.bit(j) for j in range(k)] or [ZERO])
     if isinstance(op, ast.FloorDiv) and rc is not None and rc > 0 and rc & (rc - 1) == 0:
         return int_binop(fr, ast.RShift(), l, rc.bit_length() - 1, node)
+    from .model import BIN
+    v = try_lift(BIN[type(op)], A, B)
+    if v is not TOO_WIDE:
+        return v
     return fn_int(fr, "arith:" + type(op).__name__, [A, B], 64)
 
 
@@ -236,6 +305,8 @@ def compare(fr, op, l, r, node):
             return hit if isinstance(op, ast.In) else not hit
         if isinstance(r, dict) and not is_abs(l):
             return (l in r) if isinstance(op, ast.In) else (l not in r)
+        if isinstance(r, dict) and not r:
+            return isinstance(op, ast.NotIn)
         if isinstance(r, (bytes, str)) and not is_abs(l):
             return (l in r) if isinstance(op, ast.In) else (l not in r)
         if isinstance(r, AOpq) or isinstance(l, AOpq):
@@ -249,6 +320,15 @@ def compare(fr, op, l, r, node):
                 return I.opaque("is None on opaque")
             same = False
         return same if isinstance(op, ast.Is) else not same
+    if isinstance(l, AFin) or isinstance(r, AFin) or (isinstance(l, tuple) and is_abs(l)) or (isinstance(r, tuple) and is_abs(r)):
+        from .model import CMP
+        l, r = I.simp_fin(l), I.simp_fin(r)
+        if not is_abs(l) and not is_abs(r):
+            return CMP[type(op)](l, r)
+        v = try_lift(CMP[type(op)], l, r)
+        if v is TOO_WIDE:
+            raise Abort("finite-function comparison too wide")
+        return v
     neg = isinstance(op, ast.NotEq)
     if isinstance(op, (ast.Eq, ast.NotEq)):
         v = eq(fr, l, r, node)
@@ -290,6 +370,10 @@ def compare(fr, op, l, r, node):
                 return True
             if isinstance(op, ast.Gt) and rc >= mx or isinstance(op, ast.GtE) and rc > mx:
                 return False
+        from .model import CMP
+        v = try_lift(CMP[type(op)], l, rc)
+        if v is not None:
+            return v
         return ACond("ord:" + type(op).__name__, l, rc)
     if isinstance(r, AInt) and lc is not None:
         flip = {ast.Lt: ast.Gt, ast.Gt: ast.Lt, ast.LtE: ast.GtE, ast.GtE: ast.LtE}[type(op)]()
@@ -492,6 +576,20 @@ def subscript(fr, base, sl, node):
     I = fr.I
     if isinstance(base, AOpq):
         return I.opaque("subscript of opaque")
+    if isinstance(base, (list, tuple, dict)) and not isinstance(sl, ast.Slice) and not any(is_abs(x) for x in (base.values() if isinstance(base, dict) else base)):
+        key = fr.ev(sl)
+        if isinstance(key, AInt) and const_of(fr, key) is None or isinstance(key, AFin) or (isinstance(key, tuple) and is_abs(key)):
+            if isinstance(key, AInt):
+                key = AInt(I.simp_bits(key.bits), key.ext, key.interp, key.isbool)
+            v = try_lift(lambda b, k: b[k], base, key)
+            if v is TOO_WIDE:
+                raise Abort(f"table lookup with a data-dependent key that is too wide at {fr.fi.module.relpath}:{node.lineno}")
+            if isinstance(v, _Raises):
+                raise PathRaise(v.exc, f"lookup at {fr.fi.module.relpath}:{node.lineno}")
+            if isinstance(v, AFin) and any(isinstance(t, _Raises) for t in v.table):
+                exc = [t for t in v.table if isinstance(t, _Raises)][0].exc
+                raise PartialRaise(exc, f"{fr.fi.module.relpath}:{node.lineno}")
+            return v
     i = fr.idx(sl)
     if isinstance(i, AOpq):
         return I.opaque("opaque index")
@@ -702,6 +800,8 @@ def type_matches(fr, v, t):
 
 def b_int(fr, args, kw, n):
     v = args[0] if args else 0
+    if isinstance(v, AFin):
+        return fin_lift(int, v)
     if isinstance(v, (AInt,)):
         return AInt(v.bits, v.ext, v.interp)
     if isinstance(v, ACond):
@@ -803,6 +903,8 @@ def b_hasattr(fr, args, kw, n):
 
 
 def b_divmod(fr, args, kw, n):
+    if isinstance(args[0], ASumVec) and const_of(fr, args[1]) == 2:
+        return (fr.I.opaque("quotient of integer sums"), args[0].mod2())
     return (binop(fr, ast.FloorDiv(), args[0], args[1], n), binop(fr, ast.Mod(), args[0], args[1], n))
 
 
@@ -844,7 +946,7 @@ BUILTIN_NAMES = {
     "bytearray": b_bytearray, "list": b_list, "tuple": b_tuple, "range": b_range, "enumerate": b_enumerate,
     "zip": b_zip, "reversed": b_reversed, "print": b_print, "hasattr": b_hasattr, "divmod": b_divmod,
     "sum": b_sum, "type": b_type, "str": b_str, "repr": b_str, "min": b_opaque("min"), "max": b_opaque("max"),
-    "abs": b_opaque("abs"), "sorted": b_opaque("sorted"), "float": b_opaque("float"), "round": b_opaque("round"),
+    "abs": lambda fr, args, kw, n: (fin_lift(abs, args[0]) if isinstance(args[0], AFin) else (args[0] if isinstance(args[0], AInt) else b_opaque("abs")(fr, args, kw, n))), "sorted": b_opaque("sorted"), "float": b_opaque("float"), "round": b_opaque("round"),
     "set": b_list, "frozenset": b_list, "any": b_opaque("any"), "all": b_opaque("all"), "dict": None,
 }
 BUILTINS = {}
@@ -985,6 +1087,12 @@ def method(fr, base, name, args, kw, n):
             if any(is_abs(a) for a in args):
                 return I.opaque(f"str/bytes method {name} on abstract")
         if isinstance(base, list) and name in ("append", "extend", "insert", "pop", "remove", "index", "copy", "clear", "reverse", "sort", "count"):
+            if name == "index" and args and is_abs(args[0]):
+                for k, e in enumerate(base):
+                    cand = ABits(fr.to_bitlist(e), "list") if isinstance(e, (list, tuple)) and isinstance(args[0], ABits) else e
+                    if I.decide(eq(fr, cand, args[0], n), f"index:{n.lineno}"):
+                        return k
+                raise PathRaise("ValueError", "x not in list")
             if name == "extend":
                 base.extend(fr.iterate(args[0], n))
                 return None
@@ -1135,7 +1243,7 @@ def external(fr, name, args, kw, n):
             return ABits([OB(v.why)] * fr.cint(length), "ba", endian)
         if isinstance(v, AEnum):
             raise PathRaise("TypeError", "int2ba of enum")
-        if v is None:
+        if v is TOO_WIDE:
             raise PathRaise("TypeError", f"int2ba(None) at {fr.fi.module.relpath}:{n.lineno}")
         A = fr.to_int(v)
         if length is None:
@@ -1195,6 +1303,13 @@ def external(fr, name, args, kw, n):
         for p in fr.iterate(args[0], n):
             out.extend(fr.to_bitlist(p))
         return ABits(out, "np")
+    if name in ("numpy.dot", "numpy.matmul"):
+        v = matvec(fr, args[0], args[1])
+        return v if v is not None else I.opaque("numpy.dot operands")
+    if name in ("numpy.mod", "numpy.remainder") and isinstance(args[0], ASumVec) and const_of(fr, args[1]) == 2:
+        return args[0].mod2()
+    if name == "numpy.transpose" and isinstance(args[0], NPArr):
+        return args[0].T
     if name in ("numpy.bitwise_xor.reduce", "numpy.logical_xor.reduce"):
         acc = ZERO
         for b in fr.to_bitlist(args[0]):
@@ -1205,6 +1320,9 @@ def external(fr, name, args, kw, n):
     if name == "numpy.array_equal":
         return eq(fr, ABits(fr.to_bitlist(args[0]), "seq") if not isinstance(args[0], AOpq) else args[0],
                   ABits(fr.to_bitlist(args[1]), "seq") if not isinstance(args[1], AOpq) else args[1], n)
+    if name == "array.array":
+        init = args[1] if len(args) > 1 else []
+        return list(fr.iterate(init, n))
     if name in ("copy.copy", "copy.deepcopy", "copy"):
         return deep_copy(args[0], deep=name.endswith("deepcopy"))
     if name.startswith("typing.") or name.startswith("logging"):
